@@ -86,6 +86,9 @@ class TemplateTyper:
         self.untyped: Dict[Tuple[str, str, str], int] = {}
         self.dead_guards: Dict[Tuple[str, str, str], int] = {}
         self.macro_called: Set[Tuple[str, str]] = set()
+        # id(expression node) -> where the value comes from, in terms of classes and fields
+        # ("DiagService.pos_response_refs[]"), independent of the names used in the template
+        self.origin: Dict[int, str] = {}
         self.roots: Dict[str, Dict[str, T]] = {}
         self.globals: Set[str] = set()
         self._subs_cache: Dict[int, List[ClassInfo]] = {}
@@ -201,6 +204,11 @@ class TemplateTyper:
             env2 = dict(env)
             env2["loop"] = ("prim", "loop")
             self._bind(n.target, et, env2)
+            if isinstance(n.target, nodes.Name):
+                o = self.origin.get(id(n.iter))
+                if o is None and isinstance(n.iter, nodes.Filter) and n.iter.node is not None:
+                    o = self.origin.get(id(n.iter.node))
+                env2["@o:" + n.target.name] = (o + "[]") if o else None
             if n.test is not None:
                 self._expr(n.test, env2, t, macro, "test")
             self._body(n.body, env2, t, macro)
@@ -208,6 +216,8 @@ class TemplateTyper:
         elif isinstance(n, nodes.Assign):
             v = self._expr(n.node, env, t, macro, "use")
             self._bind(n.target, v, env)
+            if isinstance(n.target, nodes.Name):
+                env["@o:" + n.target.name] = self.origin.get(id(n.node))
         elif isinstance(n, nodes.AssignBlock):
             self._body(n.body, env, t, macro)
             self._bind(n.target, STR, env)
@@ -304,6 +314,13 @@ class TemplateTyper:
             return STR
         if isinstance(e, nodes.Name):
             if e.name in env:
+                o = env.get("@o:" + e.name)
+                if o is None:
+                    cl = sorted({m[1].name for m in members(env[e.name])
+                                 if m is not None and m[0] == "cls"})
+                    o = "<" + "|".join(cl) + ">" if cl else None
+                if o is not None:
+                    self.origin[id(e)] = o
                 return env[e.name]
             if e.name in t.imports or e.name in t.macros or e.name in self.globals or \
                     e.name in JINJA_NAMES:
@@ -315,9 +332,21 @@ class TemplateTyper:
                     e.node.name not in env:
                 return ("prim", "macro")
             recv = self._expr(e.node, env, t, macro, ctx)
+            cl = sorted({m[1].name for m in members(recv) if m is not None and m[0] == "cls" and
+                         class_has_attr(self.prog, m[1], e.attr)})
+            if not cl:
+                cl = sorted({s_.name for m in members(recv) if m is not None and m[0] == "cls"
+                             for s_ in self._subclasses(m[1])
+                             if class_has_attr(self.prog, s_, e.attr)})
+            if cl:
+                self.origin[id(e)] = "|".join(cl) + "." + e.attr
+            elif id(e.node) in self.origin:
+                self.origin[id(e)] = self.origin[id(e.node)] + "." + e.attr
             return self._getattr(recv, e.attr, e, t, macro, ctx, _expr_text(e))
         if isinstance(e, nodes.Getitem):
             recv = self._expr(e.node, env, t, macro, ctx)
+            if id(e.node) in self.origin:
+                self.origin[id(e)] = self.origin[id(e.node)] + "[]"
             self._expr(e.arg, env, t, macro, ctx)
             out: T = None
             for m in members(recv):
